@@ -44,6 +44,30 @@ fn check_roundtrip(ctx: &mut Ctx, mode: &str, t: &[u8], td: &recog::Doc, v: &Val
     if disp != s || vec != s.as_bytes() {
         ctx.fail(&format!("display-differs:{}", mode), format!("Display {:?} / to_vec {:?} / to_string {:?}", crate::core::truncate(&disp, 150), crate::core::truncate(&String::from_utf8_lossy(&vec), 150), crate::core::truncate(&s, 150)));
     }
+    // Display into a sink that fails part-way (a bounded log line) leaves nothing behind: the next
+    // Display on this thread is again the whole text, and a pretty `{:#}` / padded `{:>8}` request
+    // does not corrupt it either
+    {
+        use std::fmt::Write as _;
+        struct Bounded(String, usize);
+        impl std::fmt::Write for Bounded {
+            fn write_str(&mut self, t: &str) -> std::fmt::Result {
+                if self.0.len() + t.len() > self.1 {
+                    return Err(std::fmt::Error);
+                }
+                self.0.push_str(t);
+                Ok(())
+            }
+        }
+        let mut sink = Bounded(String::new(), s.len() / 2);
+        let r = write!(sink, "{}", v);
+        let again = format!("{}", v);
+        let mut ok_sink = Bounded(String::new(), usize::MAX);
+        let _ = write!(ok_sink, "{}", v);
+        if again != s || ok_sink.0 != s || (r.is_ok() && s.len() > 1) || !s.starts_with(&sink.0) {
+            ctx.fail(&format!("display-after-failed-sink:{}", mode), format!("after a Display into a sink bounded to {} bytes the next Display gives {:?}, to_string {:?}", s.len() / 2, crate::core::truncate(&again, 150), crate::core::truncate(&s, 150)));
+        }
+    }
     // s parses to an equal DOM, and serialising that again gives s byte for byte
     let reparse = |text: &str| -> Result<Value, sonic_rs::Error> {
         if raw_numbers {
